@@ -1345,6 +1345,9 @@ class ContactHandler(Messenger, dbus.service.Object):
         if item is None:
             # Not a transfer which is waiting on acknowledgment
             raise RejectError(messages.RejectMsg.Reason.UNEXPECTED)
+        if flags & messages.TransferSegment.Flag.END and item not in self._tx_pend_ack:
+            # The final segment of this transfer has not been sent yet
+            raise RejectError(messages.RejectMsg.Reason.UNEXPECTED)
         item.ack_length = length
         if flags & messages.TransferSegment.Flag.END:
             if not self._do_send_ack_final:
